@@ -1,1 +1,28 @@
+//! Shadow `std` for the binary crate of slicec.
+//!
+//! The generated `simhost` package compiles the repository's unmodified `slicec/src/main.rs` with
+//! `std = { package = "simstd" }`, so inside that crate the name `std` resolves here: everything is the real std
+//! re-exported, except `std::process`, which is the process seam of the simulation kernel. The same library carries
+//! the libc-level interposers (file I/O faults, getrandom) that the static linker binds in preference to libc's.
+
 pub use ::std::*;
+
+pub mod process;
+
+#[doc(hidden)]
+pub mod interpose;
+#[doc(hidden)]
+pub mod kernel;
+#[doc(hidden)]
+pub mod raw;
+
+/// Loads the scenario before `main` runs (heap shift, trace, fault plan).
+#[used]
+#[link_section = ".init_array"]
+static SIMSTD_INIT: extern "C" fn() = {
+    extern "C" fn init() {
+        interpose::ensure_init();
+        ::std::hint::black_box(interpose::anchor());
+    }
+    init
+};
